@@ -49,7 +49,8 @@ def run_twice(sub, scen, jobs=None):
             for k in b1:
                 if k.endswith(".a"):
                     n = k[:-2]
-                    res[n] = (b1.get(n + ".a", []), b1.get(n + ".b", []), b2.get(n + ".c", []))
+                    np = lambda ls: [l for l in ls if not l.startswith("PANIC ")]     # (panic texts are for the monitors)
+                    res[n] = (np(b1.get(n + ".a", [])), np(b1.get(n + ".b", [])), np(b2.get(n + ".c", [])))
     return res
 
 
